@@ -50,7 +50,7 @@ type vssCase struct {
 	allHonest             bool
 }
 
-var vssVectorKinds = []string{"valid", "size-1", "size+1", "size-96", "size+96", "empty", "tag-only", "hdr-E0", "hdr-00", "inf-garbage", "x-ge-p", "x-ge-p-2", "no-sqrt", "non-G2", "non-G2-torsion", "bad-last-point", "bad-point-1", "other-polynomial"}
+var vssVectorKinds = []string{"non-G2-compensated", "valid", "size-1", "size+1", "size-96", "size+96", "empty", "tag-only", "hdr-E0", "hdr-00", "inf-garbage", "x-ge-p", "x-ge-p-2", "no-sqrt", "non-G2", "non-G2-torsion", "bad-last-point", "bad-point-1", "other-polynomial"}
 var vssShareKinds = []string{"matching", "plus1", "matches-partial-parse", "empty", "tag-only", "wrong-tag", "short", "long", "zero", "r", "max"}
 var vssOrders = []string{"VS", "SV", "VvS", "VSv", "SVv", "VSs", "SsV", "SVs", "VvSs", "SsVv", "V", "S", ""}
 
@@ -112,6 +112,23 @@ func c08PlainVSS(run *mon.Run) {
 							vc.vec, vc.vecPoly = honestVec, 0
 						case "other-polynomial":
 							vc.vec, vc.vecPoly = ap.bcast[0], 1
+						case "non-G2-compensated":
+							// A_1 += a*T13, A_2 += T13 with a = -(me+1) mod 13: the order-13 component of Q(me+1)
+							// vanishes, so the honest share still matches although two points are outside G2
+							if c.t < 2 {
+								continue
+							}
+							t13, ok := ref.TorsionE2(13, []byte("c08"))
+							p1, c1 := ref.DecodeG2(honestVec[1+96:1+192], cv)
+							p2, c2 := ref.DecodeG2(honestVec[1+192:1+288], cv)
+							if !ok || c1 != ref.DecOK || c2 != ref.DecOK {
+								continue
+							}
+							a := big.NewInt(int64((13 - (me+1)%13) % 13))
+							v := append([]byte{}, honestVec...)
+							copy(v[1+96:], ref.EncodeG2(ref.E2.Add(p1, ref.E2.Mul(t13, a)), cv))
+							copy(v[1+192:], ref.EncodeG2(ref.E2.Add(p2, t13), cv))
+							vc.vec, vc.vecPoly = v, -1
 						case "bad-last-point", "bad-point-1":
 							v := append([]byte{}, honestVec...)
 							idx := c.t
